@@ -117,6 +117,13 @@ def generate(seed, index, tier):
             ops.append(["obs", ch.choice(OBS)])
     case["ops"] = ops
     case["negative_index"] = bool(index % 5 == 3)
+    if index % 17 == 9:
+        # a fragment built through the API from one segment object (path data cannot spell a lone close of non-zero
+        # length, or a curve without a current point), alone or in front of the generated subpaths
+        nums = [float(gp.gen_number(ch, mag)) for _ in range(8)]
+        if nums[0] == nums[2] and nums[1] == nums[3]:
+            nums[2] += 1.0
+        case["api_fragment"] = {"kind": ch.choice(["Close", "Close", "Line", "QuadraticBezier", "CubicBezier"]), "nums": nums, "more": ch.coin(0.5)}
     if index % 11 == 5:
         import math
 
@@ -346,6 +353,49 @@ def execute(case, se, out, trace):
     if case["fragment"] and len(P) > 1 and type(P[0]).__name__ == "Move" and type(P[1]).__name__ not in ("Move", "Close"):
         P = se.Path(*[_copy.copy(x) for x in list(P)[1:]])
         out.count("probe:fragment-without-leading-move")
+    if case.get("api_fragment"):
+        af = case["api_fragment"]
+        n = af["nums"]
+        pts = [se.Point(n[0], n[1]), se.Point(n[2], n[3]), se.Point(n[4], n[5]), se.Point(n[6], n[7])]
+        if af["kind"] == "Close":
+            seg = se.Close(pts[0], pts[1])
+        elif af["kind"] == "Line":
+            seg = se.Line(pts[0], pts[1])
+        elif af["kind"] == "QuadraticBezier":
+            seg = se.QuadraticBezier(pts[0], pts[2], pts[1])
+        else:
+            seg = se.CubicBezier(pts[0], pts[2], pts[3], pts[1])
+        # (only behind a move: a drawing segment that does not start where the fragment ends would be no valid path)
+        if af["kind"] == "Close":
+            # a lone close of non-zero length has no subpath start of its own to return to, the general model has no
+            # place for it; what the property says about it is plain: the one drawn segment is replaced by its own
+            # reversal, twice restores it, through the path and through the view
+            a, b = (n[0], n[1]), (n[2], n[3])
+            tol = 1e-12 * max(1.0, abs(n[0]), abs(n[1]), abs(n[2]), abs(n[3]))
+            # (through the whole path only the first reversal is judged: it puts a move in front for the close to
+            # return to, and "M b, close to a" is no longer a path whose close ends where its subpath began - the
+            # second reversal of that has no defined answer; recorded in DESIGN.md 7 as an observation)
+            for how in ("view", "path"):
+                Q = se.Path(se.Close(se.Point(*a), se.Point(*b)))
+                want = [(a, b), (b, a), (a, b)]
+                for step in ((1, 2) if how == "view" else (1,)):
+                    try:
+                        (Q if how == "path" else Q.subpath(0)).reverse()
+                    except Exception as e:
+                        if core.is_harness_exc(e):
+                            raise
+                        raise V("raises", ["lone-close", how, type(e).__name__], "reverse() of Path(Close(%r, %r)) through the %s raised %r" % (a, b, how, e))
+                    # (a move the library puts in front for the close to return to draws nothing)
+                    drawn = [x for x in Q if type(x).__name__ != "Move"]
+                    got = [ob.seg_points(x) for x in drawn]
+                    ws, we = want[step]
+                    if len(drawn) != 1 or type(drawn[0]).__name__ != "Close" or not ob.close_val([got[0][0], got[0][1]], [ws, we], 0.0, tol):
+                        raise V("geometry", ["lone-close", how, "step%d" % step], "Path(Close(%r, %r)) reversed %d time(s) through the %s is %s; the drawn segment must run %r -> %r" % (a, b, step, how, [(type(x).__name__, ob.seg_points(x)) for x in Q], ws, we))
+            out.count("probe:api-built-lone-close")
+            return
+        rest = [_copy.copy(x) for x in list(P)] if af["more"] and len(P) and type(P[0]).__name__ == "Move" else []
+        P = se.Path(seg, *rest)
+        out.count("probe:api-built-fragment-" + af["kind"])
     if case.get("full_arc"):
         # a whole ellipse held as one Arc (start == end, sweep = +-tau): path data cannot spell it, the API can
         fa = case["full_arc"]
@@ -492,6 +542,8 @@ def execute(case, se, out, trace):
         model = real  # re-base on the verified state: later view indices refer to the real partition
         # (c) connectivity
         check_connected(real, V, name)
+        # (a move's start is a back link that draws nothing; the library itself leaves it stale when a closed subpath
+        # is reversed through its view, so it is not part of "a connected path" here - see DESIGN.md 11)
         # (d) a subpath reversal changes only that subpath
         if snap_out is not None:
             pre, post, lo, hi = snap_out
@@ -586,6 +638,14 @@ def shrink(case):
         c = _copy.deepcopy(case)
         c["fragment"] = False
         yield c
+    if case.get("api_fragment"):
+        c = _copy.deepcopy(case)
+        del c["api_fragment"]
+        yield c
+        if case["api_fragment"]["more"]:
+            c = _copy.deepcopy(case)
+            c["api_fragment"]["more"] = False
+            yield c
     if case.get("full_arc"):
         c = _copy.deepcopy(case)
         del c["full_arc"]
